@@ -299,6 +299,7 @@ def check_trace(case, out):
     pend = {}        # addr -> (t0, expect)
     sent = {}        # (addr, epoch) -> list of (n, apdu, request index)
     reqno = {1: 0, 2: 0, 3: 0}
+    exp_seen = {}
     due_ack, got_ack, due_disc, got_disc = [], [], [], []
     for f in ev:
         k = f[0]
@@ -319,6 +320,17 @@ def check_trace(case, out):
             if len(f) > 8:
                 msgs.append(f"process() raised {f[8]} on frame {frame} from {a} (step {fid})")
             rx[fid] = (a, frame, hc, cn, exp, epoch[a])
+            if hc:
+                # the anchored expected number is a modulo-16 counter of in-sequence data frames
+                last = exp_seen.get((a, epoch[a]))
+                if last is None:
+                    if exp != 0:
+                        msgs.append(f"expected number of a new connection to {a} is {exp}, not 0")
+                else:
+                    d = (exp - last[0]) % 16
+                    if d not in ((0, 1) if last[1] else (0,)):
+                        msgs.append(f"expected number of connection {a} went from {last[0]} to {exp} (step {fid})")
+                exp_seen[(a, epoch[a])] = (exp, frame[0] == "D" and int(frame[1:].split(".")[0]) == exp)
             if frame[0] == "D":
                 n = int(frame[1:].split(".")[0])
                 if hc and cn and n in (exp, (exp - 1) % 16):
@@ -583,7 +595,7 @@ def generate(rng, tier):
                 st += ["i 1 D0.1", "i 1 A0", "s", "q 1 D", "y", "i 1 A1", "i 1 D1.1", "s"]
                 yield case_of(st, rate, "F3")
     # F4: long sessions with perturbations (wrap included), one or two connections
-    n_long = 400 if not thorough else 6000
+    n_long = 400 if not thorough else 40000
     for _ in range(n_long):
         rate = rng.choice(rates)
         sc = Script(rng, 1, rate)
@@ -600,7 +612,7 @@ def generate(rng, tier):
         sc.add("c 1")
         yield case_of(sc.steps, rate, "F4")
     # F5: two connections interleaved
-    for _ in range(150 if not thorough else 2000):
+    for _ in range(150 if not thorough else 10000):
         rate = rng.choice(rates)
         a, b = Script(rng, 1, rate), Script(rng, 2, rate)
         a.add("o 1"); b.add("o 2")
@@ -618,7 +630,7 @@ def generate(rng, tier):
     # F6: random soup (malformed stream)
     frames = ["C", "X", "B", "I"] + [f"A{n}" for n in range(16)] + [f"N{n}" for n in (0, 1, 15)] + \
              [f"D{n}.{c}" for n in range(16) for c in (1, 2)] + [f"D{n}.3" for n in (0, 1, 15)]
-    for _ in range(500 if not thorough else 8000):
+    for _ in range(500 if not thorough else 40000):
         rate = rng.choice(rates)
         st = []
         for _ in range(rng.randrange(3, 40)):
